@@ -219,7 +219,16 @@ def check_c13(run, an):
                                    f'finished before the abort', key='log-count')
     for i, r in enumerate(recs[:len(an.model_records)]):
         e = an.model_records[i]
-        for k in so.C08_KEYS + ('score_type',):
+        for k in so.C08_KEYS + ('score_type', 'dda'):
+            if k == 'dda':
+                # "each of them whole": the double-dummy table is the board's own, or absent
+                if isinstance(r, dict) and r.get('dda', '<none>') != e.get('dda', '<none>'):
+                    an.add('C13', 'log-record', f'board {i} field dda: log has '
+                                                f'{json.dumps(r.get("dda"))[:160]}, the board\'s '
+                                                f'own table is {json.dumps(e.get("dda"))[:160]}',
+                           key='log-record:dda')
+                    break
+                continue
             if not isinstance(r, dict) or r.get(k, '<missing>') != e[k]:
                 got = r.get(k, '<missing>') if isinstance(r, dict) else r
                 an.add('C13', 'log-record', f'board {i} field {k}: log has '
